@@ -32,6 +32,21 @@ PROPS = {
         trusted_base=[GO_LIBS, "sync.Mutex / Go memory model", "net.ParseCIDR"],
         assumptions=["IPv4 pools only"],
     ),
+    "C07": dict(
+        lean=["Upf.Props.C07"],
+        claim="Theorems for every modulus M > 0, cursor, used-set and operation sequence: a granted TEID is non-zero, <= M, was free; "
+              "refused only when all M are used; live TEIDs pairwise distinct over any alloc/free history (incl. wrap-around); a granted SEID is "
+              "non-zero and not live for every random source, refused iff all maxRetries draws collide. Tied by the regenerated updateOffset, "
+              "constants and lock facts (T1) and by op-sequence traces with injected cursor/random source (T2). The 'reported = programmed' clause "
+              "is checked by the system-level harness under C02/C03.",
+        note="Trusted: Lean kernel + standard axioms; sync.Mutex; math/rand only through the injected source; hook wrappers. "
+             "alloc_full cannot be exercised on the real 2^32-1 modulus (T2 never sees a refusal); it rests on the theorem and the T1 tie.",
+        rule="cursor at {0,1,2,M-3,M-2,M-1} x 5 used-set shapes; random alloc/free/query sequences near and across the wrap; 32-goroutine concurrent "
+             "allocation with release; SEID selection with constant, cyclic, zero, colliding (98..101 collisions) and random small sources; "
+             "non-trivial = at least one identifier granted",
+        trusted_base=[GO_LIBS, "sync.Mutex / Go memory model"],
+        assumptions=["distinct associations draw independent SEIDs (uniqueness is per association, as the property states)"],
+    ),
 }
 
 NOT_APPLICABLE = {}
